@@ -347,12 +347,15 @@ def verify(path, allowed, models, where, sig="C04/", break_locks=True,
         check(tip == b"null:" or tip in revs, sig + "branch-tip-not-present",
               [where, tip])
         read = {}           # stored text (file id, revision) -> sha1 read
-        for r in sorted(revs):
+        order = sorted(revs)
+        trees = list(repo.revision_trees(order))
+        for r, tree in zip(order, trees):
             parents, model = models.revs[r]
             rev = repo.get_revision(r)
             check(tuple(rev.parent_ids) == parents,
                   sig + "revision-parents-differ", [where, r])
-            tree = repo.revision_tree(r)
+            check(tree.get_revision_id() == r,
+                  sig + "revision-tree-for-other-revision", [where, r])
             seen = {}
             for p, ie in tree.iter_entries_by_dir():
                 if p == "":
